@@ -332,11 +332,8 @@ def load_value_estimate(file: LoadSource) -> ValueEstimate:
         array (numpy.array): the array
     """
 
-    if isinstance(file, str):
-        with open(file, "r") as f:
-            data = json.load(f)
-    else:
-        data = json.load(file)  # type: ignore
+    with ensure_open(file) as f:
+        data = json.load(f)
 
     return ValueEstimate.from_dict(data)
 
@@ -364,11 +361,8 @@ def load_list(file: LoadSource) -> List:
         array (list): the list
     """
 
-    if isinstance(file, str):
-        with open(file, "r") as f:
-            data = json.load(f)
-    else:
-        data = json.load(file)  # type: ignore
+    with ensure_open(file) as f:
+        data = json.load(f)
 
     return data["list"]
 
